@@ -163,16 +163,18 @@ def namesEntry (r : Ref) (c : Bytes) (part : Bytes) : Ref :=
       let r := r.addMember c (fold s.name)
       r.setPerms c (fold s.name) (permsFromPrefix syms)
 
-/-- What one message means. -/
-def step (cfg : Cfg) (r : Ref) (e : Event) : Ref :=
-  -- account-tag: a message from a known user carries the account it is logged in to
-  let r := match e.tags, e.source with
-    | some t, some src =>
-      if t.isEmpty then r else
-      (match tagsGet (some t) sAccount with
-       | some a => r.updUser (fold src.name) (fun u => { u with account := a })
-       | none => r)
-    | _, _ => r
+/-- account-tag: a message from a known user carries the account it is logged in to. -/
+def tagStep (r : Ref) (e : Event) : Ref :=
+  match e.tags, e.source with
+  | some t, some src =>
+    if t.isEmpty then r else
+    (match tagsGet (some t) sAccount with
+     | some a => r.updUser (fold src.name) (fun u => { u with account := a })
+     | none => r)
+  | _, _ => r
+
+/-- What the command of one message means. -/
+def cmdStep (cfg : Cfg) (r : Ref) (e : Event) : Ref :=
   let c := e.command
   let last := e.params.getLastD []
   if c = c001 then (match e.params with | p :: _ => { r with me := p } | [] => r)
@@ -269,6 +271,9 @@ def step (cfg : Cfg) (r : Ref) (e : Event) : Ref :=
   else if c = c375 then { r with motd := [] }
   else if c = c372 then { r with motd := (if r.motd.isEmpty then [] else r.motd ++ [LF]) ++ last }
   else r
+
+/-- What one message means. -/
+def step (cfg : Cfg) (r : Ref) (e : Event) : Ref := cmdStep cfg (tagStep r e) e
 
 def run (cfg : Cfg) (es : List Event) : Ref := es.foldl (step cfg) {}
 
